@@ -726,3 +726,118 @@ BENIGN[-1]['edits'] = [
     {'file': M, 'old': 'return_object', 'new': 'give_back', 'count': 2},
     {'file': M, 'old': 'detach_object', 'new': 'unlink_obj', 'count': 2},
 ]
+
+ALLP = ['C%02d' % i for i in range(1, 20)]
+CORE = ['C01', 'C02', 'C03', 'C04', 'C06', 'C07', 'C08', 'C09', 'C10', 'C11', 'C13']
+
+def bn(id, desc, props, *edits):
+    return {'id': id, 'desc': desc, 'props': props, 'expect': [],
+            'edits': [e if isinstance(e, dict) else {'file': e[0], 'old': e[1], 'new': e[2]} for e in edits]}
+
+def ren(file, old, new, count):
+    return {'file': file, 'old': old, 'new': new, 'count': count}
+
+BENIGN += [
+    bn('N02-1', 'return_object: lock before users.fetch_sub', CORE,
+       (M, "        let _ = self.users.fetch_sub(1, Ordering::Relaxed);\n        let mut slots = self.slots.lock().unwrap();\n        if slots.size <= slots.max_size {", "        let mut slots = self.slots.lock().unwrap();\n        let _ = self.users.fetch_sub(1, Ordering::Relaxed);\n        if slots.size <= slots.max_size {")),
+    bn('N02-2', 'getter: if let -> match on the pop result', CORE,
+       (M, "            let inner_obj = if let Some(inner_obj) = inner_obj {\n                self.try_recycle(timeouts, inner_obj).await?\n            } else {\n                self.try_create(timeouts).await?\n            };", "            let inner_obj = match inner_obj {\n                Some(inner_obj) => self.try_recycle(timeouts, inner_obj).await?,\n                None => self.try_create(timeouts).await?,\n            };")),
+    bn('N02-3', 'users guard as a named struct with Drop instead of DropGuard(closure)', CORE,
+       (M, "        let users_guard = DropGuard(|| {\n            let _ = self.inner.users.fetch_sub(1, Ordering::Relaxed);\n        });", "        struct UsersGuard<'a>(&'a AtomicUsize);\n        impl Drop for UsersGuard<'_> {\n            fn drop(&mut self) {\n                let _ = self.0.fetch_sub(1, Ordering::Relaxed);\n            }\n        }\n        let users_guard = UsersGuard(&self.inner.users);"),
+       (M, "        users_guard.disarm();\n", "        std::mem::forget(users_guard);\n"),
+       (M, "use self::dropguard::DropGuard;\n", "")),
+    bn('N02-4', 'rename private types and fields (Slots.size->count, UnreadyObject->Pending, users->active)', CORE,
+       ren(M, 'UnreadyObject', 'Pending', 'any'), ren(M, 'slots.size', 'slots.live', 'any'), ren(M, 'guard.size', 'guard.live', 'any'), ren(M, '.unwrap().size', '.unwrap().live', 'any'), ren(M, '    size: usize,', '    live: usize,', 'any'), ren(M, '                    size: 0,', '                    live: 0,', 'any'), ren(M, 'unready_obj', 'pending', 'any'), ren(M, 'DropGuard', 'Undo', 'any'), ren('src/managed/dropguard.rs', 'DropGuard', 'Undo', 'any'), ren(M, 'apply_timeout', 'with_deadline', 'any'), ren(M, 'self.inner.users', 'self.inner.active', 'any'), ren(M, 'self.users', 'self.active', 'any'), ren(M, '    users: AtomicUsize', '    active: AtomicUsize', 'any')),
+    bn('N02-5', 'try_create inlined into timeout_get', CORE,
+       (M, "                self.try_create(timeouts).await?\n            };", """                let mut unready_obj = UnreadyObject {
+                    inner: Some(ObjectInner {
+                        obj: apply_timeout(
+                            self.inner.runtime,
+                            TimeoutType::Create,
+                            timeouts.create,
+                            self.inner.manager.create(),
+                        )
+                        .await?,
+                        metrics: Metrics::default(),
+                    }),
+                    pool: &self.inner,
+                };
+                self.inner.slots.lock().unwrap().size += 1;
+                if let Err(e) = self
+                    .inner
+                    .hooks
+                    .post_create
+                    .apply(unready_obj.inner())
+                    .await
+                {
+                    return Err(PoolError::PostCreateHook(e));
+                }
+                Some(unready_obj.ready())
+            };"""),
+       (M, """    #[inline]
+    async fn try_create(
+        &self,
+        timeouts: &Timeouts,
+    ) -> Result<Option<ObjectInner<M>>, PoolError<M::Error>> {
+        let mut unready_obj = UnreadyObject {
+            inner: Some(ObjectInner {
+                obj: apply_timeout(
+                    self.inner.runtime,
+                    TimeoutType::Create,
+                    timeouts.create,
+                    self.inner.manager.create(),
+                )
+                .await?,
+                metrics: Metrics::default(),
+            }),
+            pool: &self.inner,
+        };
+
+        self.inner.slots.lock().unwrap().size += 1;
+
+        // Apply post_create hooks
+        if let Err(e) = self
+            .inner
+            .hooks
+            .post_create
+            .apply(unready_obj.inner())
+            .await
+        {
+            return Err(PoolError::PostCreateHook(e));
+        }
+
+        Ok(Some(unready_obj.ready()))
+    }
+""", "")),
+    bn('N02-6', 'status(): negated comparison with swapped branches', CORE,
+       (M, "        let (available, waiting) = if users < slots.size {\n            (slots.size - users, 0)\n        } else {\n            (0, users - slots.size)\n        };", "        let (available, waiting) = if users >= slots.size {\n            (0, users - slots.size)\n        } else {\n            (slots.size - users, 0)\n        };")),
+    bn('N02-7', 'resize: grow amount computed from the argument', CORE,
+       (M, "            let additional = slots.max_size - old_max_size;", "            let additional = max_size - old_max_size;")),
+    bn('N02-8', 'close: drain with a for loop over drain(..)', CORE,
+       (M, "        while let Some(mut obj) = slots.vec.pop_front() {\n            slots.size -= 1;\n            self.inner.manager.detach(&mut obj.obj);\n        }\n    }", "        loop {\n            match slots.vec.pop_front() {\n                None => break,\n                Some(mut obj) => {\n                    slots.size -= 1;\n                    self.inner.manager.detach(&mut obj.obj);\n                }\n            }\n        }\n    }")),
+    bn('N02-9', 'comments, blank lines and a debug log line outside lock regions', CORE,
+       (M, "        let inner_obj = loop {\n            let inner_obj = match self.inner.config.queue_mode {", "        // take an idle object or create one\n\n        let inner_obj = loop {\n            let inner_obj = match self.inner.config.queue_mode {")),
+    bn('N02-10', 'recycler: failure branches via match instead of if let Err', CORE,
+       (M, "        if let Err(_e) = self.inner.hooks.pre_recycle.apply(inner).await {\n            // TODO log pre_recycle error\n            return Ok(None);\n        }", "        match self.inner.hooks.pre_recycle.apply(inner).await {\n            Ok(()) => {}\n            Err(_e) => return Ok(None),\n        }")),
+    bn('N02-11', 'detach_object: add_permits before... no: same order, branch via if/else', CORE,
+       (M, "        let add_permits = slots.size <= slots.max_size;\n        slots.size -= 1;\n        drop(slots);\n        if add_permits {\n            self.semaphore.add_permits(1);\n        }", "        if slots.size <= slots.max_size {\n            slots.size -= 1;\n            drop(slots);\n            self.semaphore.add_permits(1);\n        } else {\n            slots.size -= 1;\n            drop(slots);\n        }")),
+    bn('N05-1', 'unmanaged: rename GetGuard / _add / clean_up', ['C05', 'C10', 'C12'],
+       ren(U, 'GetGuard', 'InFlight', 'any'), ren(U, 'self._add(', 'self.publish(', 'any'), ren(U, 'fn _add(', 'fn publish(', 'any'), ren(U, 'clean_up', 'tidy', 'any')),
+    bn('N05-2', 'unmanaged try_get: match instead of map_err closure', ['C05', 'C10', 'C12'],
+       (U, "        let permit = inner.semaphore.try_acquire().map_err(|e| match e {\n            TryAcquireError::NoPermits => PoolError::Timeout,\n            TryAcquireError::Closed => PoolError::Closed,\n        })?;", "        let permit = match inner.semaphore.try_acquire() {\n            Ok(p) => p,\n            Err(TryAcquireError::NoPermits) => return Err(PoolError::Timeout),\n            Err(TryAcquireError::Closed) => return Err(PoolError::Closed),\n        };")),
+    bn('N18-1', 'get_pg_config: independent setter blocks reordered', ['C18', 'C16'],
+       (PC, "        if let Some(connect_timeout) = self.connect_timeout {\n            cfg.connect_timeout(connect_timeout);\n        }\n        if let Some(keepalives) = self.keepalives {\n            cfg.keepalives(keepalives);\n        }", "        if let Some(keepalives) = self.keepalives {\n            cfg.keepalives(keepalives);\n        }\n        if let Some(connect_timeout) = self.connect_timeout {\n            cfg.connect_timeout(connect_timeout);\n        }")),
+    bn('N18-2', 'get_pg_config: options via as_deref', ['C18'],
+       (PC, "        if let Some(options) = &self.options {\n            cfg.options(options.as_str());\n        }", "        if let Some(options) = self.options.as_deref() {\n            cfg.options(options);\n        }")),
+    bn('N16-1', 'postgres recycle: early return for the None method', ['C16'],
+       (P, "        match self.config.recycling_method.query() {\n            Some(sql) => match client.simple_query(sql).await {", "        let sql = match self.config.recycling_method.query() {\n            Some(sql) => sql,\n            None => return Ok(()),\n        };\n        match Some(sql) {\n            Some(sql) => match client.simple_query(sql).await {")),
+    bn('N17-1', 'redis recycle: compare the other way round', ['C17'],
+       (R, "        if n == ping_number {", "        if ping_number == n {")),
+    bn('N14-1', 'sync: Drop closure with if let instead of match', ['C14', 'C15'],
+       (S, "            .spawn_blocking_background(move || match arc.lock() {\n                Ok(mut guard) => drop(guard.take()),\n                Err(e) => drop(e.into_inner().take()),\n            })", "            .spawn_blocking_background(move || {\n                let mut guard = match arc.lock() {\n                    Ok(guard) => guard,\n                    Err(e) => e.into_inner(),\n                };\n                drop(guard.take());\n            })")),
+    bn('N19-1', 'redis builder: match arms reordered', ['C19'],
+       (RC, "            (Some(url), None) => crate::Manager::new(url.as_str())?,\n            (None, Some(connection)) => crate::Manager::new(connection.clone())?,\n            (None, None) => crate::Manager::new(ConnectionInfo::default())?,\n            (Some(_), Some(_)) => return Err(ConfigError::UrlAndConnectionSpecified),", "            (Some(_), Some(_)) => return Err(ConfigError::UrlAndConnectionSpecified),\n            (None, None) => crate::Manager::new(ConnectionInfo::default())?,\n            (None, Some(connection)) => crate::Manager::new(connection.clone())?,\n            (Some(url), None) => crate::Manager::new(url.as_str())?,")),
+]
+for b in BENIGN:
+    if b['id'].startswith('N01'):
+        b['props'] = CORE
